@@ -14,6 +14,7 @@ import (
 	"github.com/ethereum/go-ethereum/core/types/goattypes"
 	ethcrypto "github.com/ethereum/go-ethereum/crypto"
 	lockingtypes "github.com/goatnetwork/goat/x/locking/types"
+	relayertypes "github.com/goatnetwork/goat/x/relayer/types"
 
 	"verif/harness/vc"
 	"verif/harness/world"
@@ -56,6 +57,8 @@ type lockCfg struct {
 	Params      func(*lockingtypes.Params)
 	Genesis     func(*lockingtypes.GenesisState)
 	Cons        func(*cmttypes.ConsensusParams)
+	Relayer     func(*relayertypes.GenesisState)
+	NRelayers   int
 	Step        time.Duration
 	JumpTime    bool // occasional large block-time steps
 	TargetPunished bool // lock/unlock requests prefer jailed and tombstoned validators
@@ -134,6 +137,8 @@ type lockHist struct {
 	tokens    []common.Address
 	failed    bool
 	crashFn   func(*world.ErrCrash)
+	extra     func(*blockOps)      // lets a check add requests to the generated block
+	hookAfter func(*world.Block)
 	prevNext  *cmttypes.ValidatorSet // CometBFT's next validator set before the current block's updates
 	rejectFn  func(*world.ErrRejected)
 }
@@ -165,7 +170,7 @@ func newLockHist(c *vc.Ctx, cfg lockCfg, idx int) (*lockHist, error) {
 	h := &lockHist{c: c, cfg: cfg, r: world.NewRand(c.Seed, "lockhist/"+cfg.Label, idx), unlocks: map[uint64]*unlockRec{}, claims: map[uint64]*claimRec{}, absentRun: map[int]int{}}
 	h.tokens = []common.Address{tokBTC, tokGOAT, tokX}
 	one := math.NewIntFromUint64(1e18)
-	w, err := world.New(world.Config{Seed: c.Seed, Label: fmt.Sprintf("%s-%d", cfg.Label, idx), NVals: cfg.NVals, Powers: cfg.Powers, Cons: cfg.Cons,
+	w, err := world.New(world.Config{Seed: c.Seed, Label: fmt.Sprintf("%s-%d", cfg.Label, idx), NVals: cfg.NVals, Powers: cfg.Powers, Cons: cfg.Cons, Relayer: cfg.Relayer, NRelayers: cfg.NRelayers,
 		Locking: func(g *lockingtypes.GenesisState) {
 			if cfg.MaxVals > 0 {
 				g.Params.MaxValidators = cfg.MaxVals
@@ -484,6 +489,9 @@ func (h *lockHist) gen() *blockOps {
 // step executes the next block and records ground truth. It returns false when the history cannot go on.
 func (h *lockHist) step() bool {
 	o := h.gen()
+	if h.extra != nil {
+		h.extra(o)
+	}
 	h.ops = o
 	h.pre = h.post
 	for vi := range o.Absent {
